@@ -3,6 +3,7 @@ package oracle
 import (
 	"bytes"
 	"math/big"
+	"sort"
 	"strings"
 
 	vmcommon "github.com/ElrondNetwork/elrond-vm-common"
@@ -68,6 +69,7 @@ var AllFunctions = []string{
 }
 
 var builtinSet = func() map[string]bool {
+	sort.Strings(AllFunctions)
 	m := map[string]bool{}
 	for _, f := range AllFunctions {
 		m[f] = true
